@@ -39,6 +39,7 @@ pub fn run(prop: &str, tier: Tier, seed: i64, replay: Option<&str>) -> i32 {
             if matches!(prop, "C06" | "C01" | "C10" | "C04") {
                 ck.pumping_stage();
             }
+            ck.corpus_stage();
             if matches!(prop, "C04" | "C06" | "C10") {
                 builder_stages(&mut ck, true);
             }
@@ -551,6 +552,30 @@ impl Check {
             a.samples.truncate(2);
             self.total.merge(a);
         }
+    }
+
+    /// A9: the one-edit neighbourhood of the upstream conformance corpus
+    pub fn corpus_stage(&mut self) {
+        let se = StringEval { prop: self.prop, mon: monitors_for(self.prop) };
+        let inputs = lens::corpus_edits();
+        if inputs.is_empty() {
+            println!("MACHINERY: the conformance corpus under /repo/xtask could not be read");
+            self.exhaustive = false;
+            return;
+        }
+        let t0 = Instant::now();
+        let mut a = par_items(inputs.len(), threads(), |i, acc| {
+            if se.eval(&inputs[i], acc) {
+                acc.nontrivial += 1;
+                if i % 50_000 == 17 {
+                    acc.sample(|| json!(inputs[i]));
+                }
+            }
+        });
+        a.samples.truncate(3);
+        self.stages.push(json!({"engine": "A9-corpus-one-edit", "strings": a.evals, "accepted": a.accepted, "nontrivial": a.nontrivial, "wall_s": t0.elapsed().as_secs_f64()}));
+        self.bounds.push(json!({"corpus_one_edit_strings": inputs.len()}));
+        self.total.merge(a);
     }
 
     pub fn pumping_stage(&mut self) {
